@@ -200,8 +200,6 @@ theorem J_connDisconnect (h : J a c) : J a (connDisconnect c) := by
 theorem J_notify' (h : J a c) : J a (notify { c with negotiated := true } .rawConnect) :=
   J_notifyNeg h (.inr rfl)
 
-theorem J_negotiationSuccess (h : J a c) : J a (negotiationSuccess c) :=
-  J_notifyNeg h (.inl rfl)
 
 theorem J_prepareReset {o} (h : J a c) : J a (prepareReset c o) := h
 
@@ -216,6 +214,14 @@ theorem J_pushRaw {it o} (h : J a c) : J a (pushRaw c it o) := by
 
 theorem J_sendStanza {it o} (h : J a c) : J a (sendStanza c it o) := by
   unfold sendStanza; ctrav
+/-- `_stream_negotiation_success`: the CONNECT notification, then possibly one element sent by the
+    application's connection handler -/
+theorem J_negotiationSuccess (h : J a c) : J a (negotiationSuccess c) := by
+  have h1 : J a (notify { c with negotiated := true } .connect) := J_notifyNeg h (.inl rfl)
+  unfold negotiationSuccess
+  dsimp only
+  exact pred_ite (P := J a) (fun _ => J_sendStanza h1) (fun _ => h1)
+
 theorem J_sendRaw {it o} (h : J a c) : J a (sendRaw c it o) := by
   unfold sendRaw; ctrav
 theorem J_sendRawString {it} (h : J a c) : J a (sendRawString c it) := by
@@ -549,6 +555,7 @@ theorem Inv_step (op : Op) (h : Inv c) : Inv (step c op) := by
   | setSched l d => exact h
   | tick ms => exact h
   | setSmCallback => exact h
+  | setSendOnConnect on => exact h
   | setFlags f => exact Inv_setFlags h
   | usend it =>
     rcases h with h | ⟨a, h⟩
